@@ -92,7 +92,10 @@ class RF24Network(RF24NetworkRoutingOnly):
         self, frame: RF24NetworkFrame, traffic_direct: int = AUTO_ROUTING
     ) -> bool:
         """Helper to do prep work for _write_to_pipe(); like to TMRh20's _write()"""
-        self.frame_buf = frame
+        # copy into this node's own buffer: received frames (e.g. a NETWORK_ACK)
+        # are unpacked into frame_buf and must not overwrite the caller's object
+        self.frame_buf.header.unpack(frame.header.pack())
+        self.frame_buf.message = frame.message
         if traffic_direct != AUTO_ROUTING:
             # Payload is multicast to the first node, and routed normally to the next
             send_type = TX_LOGICAL
